@@ -346,6 +346,31 @@ func (m *Machine) callBuiltin(caller *frame, callpos token.Pos, fn *ssa.Builtin,
 		}
 		return m.appendSlice(dst, add, elemT)
 
+	case "clear":
+		switch x := args[0].(type) {
+		case Slice:
+			if x.len > 0 {
+				elemT := fn.Type().(*types.Signature).Params().At(0).Type().Underlying().(*types.Slice).Elem()
+				if m.lockset != nil && m.locksetOn && x.a != nil {
+					m.lockset.access(m, x.a, true, callpos)
+				}
+				for i := 0; i < x.len; i++ {
+					*x.At(i) = zero(elemT)
+				}
+			}
+		case *Map:
+			if x != nil {
+				if m.lockset != nil && m.locksetOn {
+					m.lockset.access(m, x, true, callpos)
+				}
+				x.keys, x.vals = nil, nil
+				x.reindex()
+			}
+		default:
+			unsupportedf("clear of %T", x)
+		}
+		return nil
+
 	case "copy":
 		dst := args[0].(Slice)
 		n := 0
